@@ -239,6 +239,20 @@ def probe_runs(ctx, r, quick):
     ctx.extra["nolibc_probe"] = obs[:12]
 
 
+def replay(ctx, rp):
+    if "script" in rp.get("replay", {}):
+        import subprocess
+        r = rp["replay"]
+        exe, err = build_probe(ctx, "thr" in str(r.get("how_to_replay", "")))
+        if exe is None:
+            print(err)
+            return 2
+        p = subprocess.run([exe], input=r["script"], stdout=subprocess.PIPE, text=True, timeout=3000)
+        print(p.stdout[-2000:])
+        return 0
+    return c03.replay(ctx, rp, judge_factory=lambda: FootJudge(int(rp.get("replay", {}).get("rounds", 0) or 0)))
+
+
 def run(ctx):
     ctx.rule = ("cases = workloads (3..60 blocks; small / mixed / large sizes up to 32 MiB, alignments 1..8192, optionally interleaved "
                 "frees; free order LIFO/FIFO/random/every-other) repeated N times with mmap placement below the lowest mapping (as "
